@@ -22,14 +22,14 @@ inductive DHOut (d : Disk) (n : Nat) : Proc × Bool → Prop
       (∀ j, j ∉ segIds (d.md.segs.takeWhile (gone d n)) → g j = true) →
       DHOut d n ({ disk := allDisk d g, frozen := none }, true)
 
-theorem runOp_delHead_out (d : Disk) (n : Nat) (k : Option Nat) (wf : WriteFail)
-    (hfresh : d.file? d.md.nextID = none) : DHOut d n (runOp { disk := d, frozen := none } (.delHead n) k wf) := by
+theorem runOp_delHead_out (d : Disk) (n : Nat) (pl : Plan)
+    (hfresh : d.file? d.md.nextID = none) : DHOut d n (runOp { disk := d, frozen := none } (.delHead n) pl) := by
   cases hk : d.md.segs.dropWhile (gone d n) with
   | nil =>
     have hk' : (vdisk d).md.segs.dropWhile (goneB (lastIndex (vdisk d)) n) = [] := hk
     have hacts := delHead_acts_all (vdisk d) n hk'
-    rcases run_all wf d (allMeta d) d.md.nextID (lastIndex (vdisk d) + 1)
-      (segIds (d.md.segs.takeWhile (gone d n))) k hfresh with hr | hr | ⟨g, k', hg, hr⟩
+    rcases run_all d (allMeta d) d.md.nextID (lastIndex (vdisk d) + 1)
+      (segIds (d.md.segs.takeWhile (gone d n))) pl hfresh with ⟨pl', hr⟩ | ⟨pl', hr⟩ | ⟨g, pl', hg, hr⟩
     · rw [runOp_delHead_of (hacts ▸ hr)]
       exact DHOut.same
     · rw [runOp_delHead_of (hacts ▸ hr)]
@@ -39,8 +39,8 @@ theorem runOp_delHead_out (d : Disk) (n : Nat) (k : Option Nat) (wf : WriteFail)
   | cons hd rest =>
     have hk' : (vdisk d).md.segs.dropWhile (goneB (lastIndex (vdisk d)) n) = hd :: rest := hk
     have hacts := delHead_acts_keep (vdisk d) n hk'
-    rcases run_keep wf d { d.md with segs := { hd with min := n } :: rest }
-      (segIds (d.md.segs.takeWhile (gone d n))) k with hr | ⟨g, k', hg, hr⟩
+    rcases run_keep d { d.md with segs := { hd with min := n } :: rest }
+      (segIds (d.md.segs.takeWhile (gone d n))) pl with ⟨pl', hr⟩ | ⟨g, pl', hg, hr⟩
     · rw [runOp_delHead_of (hacts ▸ hr)]
       exact DHOut.same
     · rw [runOp_delHead_of (hacts ▸ hr)]
@@ -156,18 +156,17 @@ end
 
 /-! ### the three per-call theorems for `delHead` -/
 
-theorem delHead_good (p : Proc) (hi : FInv p) (n : Nat) (hok : OkV (view p) (.delHead n)) (k : Option Nat)
-    (wf : WriteFail) : DHGood p n (runOp p (.delHead n) k wf) := by
+theorem delHead_good (p : Proc) (hi : FInv p) (n : Nat) (hok : OkV (view p) (.delHead n)) (pl : Plan) : DHGood p n (runOp p (.delHead n) pl) := by
   obtain ⟨d, fr⟩ := p
   cases fr with
   | some segs0 =>
-    rw [runOp_delHead_frozen _ n k wf rfl]
+    rw [runOp_delHead_frozen _ n pl rfl]
     exact good_same _ hi n
   | none =>
     obtain ⟨P, t, f, h⟩ := FR.of_finv (d := d) hi
     have hokc := h.ok hok
-    have hout := runOp_delHead_out d n k wf h.fresh_d
-    generalize runOp { disk := d, frozen := none } (.delHead n) k wf = r at hout
+    have hout := runOp_delHead_out d n pl h.fresh_d
+    generalize runOp { disk := d, frozen := none } (.delHead n) pl = r at hout
     cases hout with
     | same => exact good_same _ hi n
     | stop hk => exact h.good_stop hokc hk
@@ -175,23 +174,23 @@ theorem delHead_good (p : Proc) (hi : FInv p) (n : Nat) (hok : OkV (view p) (.de
     | all g hk hg => exact h.good_all hokc hk g hg
 
 theorem finv_call_delHead (p : Proc) (hi : FInv p) (newMin : Nat) (hok : OkV (view p) (.delHead newMin))
-    (k : Option Nat) (wf : WriteFail) : FInv (runOp p (.delHead newMin) k wf).1 :=
-  (delHead_good p hi newMin hok k wf).inv
+    (pl : Plan) : FInv (runOp p (.delHead newMin) pl).1 :=
+  (delHead_good p hi newMin hok pl).inv
 
 theorem call_view_delHead (p : Proc) (hi : FInv p) (newMin : Nat) (hok : OkV (view p) (.delHead newMin))
-    (k : Option Nat) (wf : WriteFail) :
-    view (runOp p (.delHead newMin) k wf).1 =
-      if (runOp p (.delHead newMin) k wf).2 then specApply (view p) (.delHead newMin) else view p :=
-  (delHead_good p hi newMin hok k wf).vw
+    (pl : Plan) :
+    view (runOp p (.delHead newMin) pl).1 =
+      if (runOp p (.delHead newMin) pl).2 then specApply (view p) (.delHead newMin) else view p :=
+  (delHead_good p hi newMin hok pl).vw
 
 theorem call_disklog_delHead (p : Proc) (hi : FInv p) (newMin : Nat) (hok : OkV (view p) (.delHead newMin))
-    (k : Option Nat) (wf : WriteFail) :
-    absLog (runOp p (.delHead newMin) k wf).1.disk = view (runOp p (.delHead newMin) k wf).1 ∨
-    ((runOp p (.delHead newMin) k wf).2 = false ∧
-      absLog (runOp p (.delHead newMin) k wf).1.disk = specApply (view p) (.delHead newMin)) ∨
-    absLog (runOp p (.delHead newMin) k wf).1.disk =
-      (if (runOp p (.delHead newMin) k wf).2 then specApply (absLog p.disk) (.delHead newMin) else absLog p.disk) :=
-  (delHead_good p hi newMin hok k wf).dlog
+    (pl : Plan) :
+    absLog (runOp p (.delHead newMin) pl).1.disk = view (runOp p (.delHead newMin) pl).1 ∨
+    ((runOp p (.delHead newMin) pl).2 = false ∧
+      absLog (runOp p (.delHead newMin) pl).1.disk = specApply (view p) (.delHead newMin)) ∨
+    absLog (runOp p (.delHead newMin) pl).1.disk =
+      (if (runOp p (.delHead newMin) pl).2 then specApply (absLog p.disk) (.delHead newMin) else absLog p.disk) :=
+  (delHead_good p hi newMin hok pl).dlog
 
 /-! ### the further conjuncts (`fextraB`) under `delHead` -/
 
@@ -206,18 +205,18 @@ theorem fextraStopB_all (d : Disk) : fextraStopB { d with md := allMeta d } = tr
   simp [fextraStopB, newSeg, nodupB]
 
 theorem fextra_call_delHead (p : Proc) (hi : FInvS p) (newMin : Nat) (hok : OkV (view p) (.delHead newMin))
-    (k : Option Nat) (wf : WriteFail) : fextraB (runOp p (.delHead newMin) k wf).1 = true := by
+    (pl : Plan) : fextraB (runOp p (.delHead newMin) pl).1 = true := by
   obtain ⟨hi, hx⟩ := hi
   obtain ⟨d, fr⟩ := p
   cases fr with
   | some segs0 =>
-    rw [runOp_delHead_frozen _ newMin k wf rfl]
+    rw [runOp_delHead_frozen _ newMin pl rfl]
     exact hx
   | none =>
     obtain ⟨P, t, f, h⟩ := FR.of_finv (d := d) hi
     have hokc := h.ok hok
-    have hout := runOp_delHead_out d newMin k wf h.fresh_d
-    generalize runOp { disk := d, frozen := none } (.delHead newMin) k wf = r at hout
+    have hout := runOp_delHead_out d newMin pl h.fresh_d
+    generalize runOp { disk := d, frozen := none } (.delHead newMin) pl = r at hout
     cases hout with
     | same => exact hx
     | stop hk => exact fextraStopB_all d
@@ -241,7 +240,7 @@ theorem fextra_call_delHead (p : Proc) (hi : FInvS p) (newMin : Nat) (hok : OkV 
       rfl
 
 theorem finvS_call_delHead (p : Proc) (hi : FInvS p) (newMin : Nat) (hok : OkV (view p) (.delHead newMin))
-    (k : Option Nat) (wf : WriteFail) : FInvS (runOp p (.delHead newMin) k wf).1 :=
-  ⟨finv_call_delHead p hi.1 newMin hok k wf, fextra_call_delHead p hi newMin hok k wf⟩
+    (pl : Plan) : FInvS (runOp p (.delHead newMin) pl).1 :=
+  ⟨finv_call_delHead p hi.1 newMin hok pl, fextra_call_delHead p hi newMin hok pl⟩
 
 end RaftWal.Fault.B
